@@ -52,6 +52,8 @@ pub enum Op {
     LogoutParent,
     /// 0: 61 s (code lifetime), 1: past the grace window, 2: past the access token lifetime
     Tick(usize),
+    /// revoke, on the client's key object, the key that signed the access token of set j
+    RevokeSigningKey(usize),
 }
 
 #[derive(Clone, Debug, Default)]
@@ -62,6 +64,10 @@ pub struct Cfg {
     pub lifecycle: bool,
     pub ticks: Vec<usize>,
     pub pre_ops: Vec<Op>,
+    /// the confidential client also signs with RS256 ("legacy crypto")
+    pub legacy_crypto: bool,
+    /// offer revocation of the signing key of an issued access token
+    pub key_revocation: bool,
 }
 
 pub struct Code {
@@ -99,6 +105,8 @@ pub struct OAuthW {
     /// sessions (by lineage index) that must be dead: (why, since)
     pub dead: std::collections::BTreeMap<usize, (String, u64)>,
     pub account_expired: bool,
+    /// key ids revoked on a client's key object
+    pub revoked_kids: BTreeSet<String>,
     pub parent_logged_out: Option<u64>,
     pub pending: Vec<(String, String)>,
     pub tainted: bool,
@@ -114,15 +122,16 @@ fn scope_set(s: usize) -> BTreeSet<String> {
 
 impl OAuthW {
     pub fn new(cfg: Cfg) -> OAuthW {
-        let mk = |n: u128, name: &str, public: bool| Client { name: name.to_string(), uuid: Uuid::from_u128(0x0c39_0000_0000_4000_8000_0000_0000_0000 + n), public, allow_localhost: false, pkce_disabled: false, main_scopes: vec!["openid", "email"], extra_map: true, sup_map: false, redirects: vec![REDIRECT, OTHER_REDIRECT], consent_prompt: true };
-        let clients = vec![mk(1, "confidential", false), mk(2, "other", false), mk(3, "public", true)];
+        let mk = |n: u128, name: &str, public: bool| Client { name: name.to_string(), uuid: Uuid::from_u128(0x0c39_0000_0000_4000_8000_0000_0000_0000 + n), public, allow_localhost: false, pkce_disabled: false, main_scopes: vec!["openid", "email"], extra_map: true, sup_map: false, redirects: vec![REDIRECT, OTHER_REDIRECT], consent_prompt: true, legacy_crypto: false };
+        let mut clients = vec![mk(1, "confidential", false), mk(2, "other", false), mk(3, "public", true)];
+        clients[0].legacy_crypto = cfg.legacy_crypto;
         // user 1: member of G_MAIN only -> holds openid, email (not groups)
         let idm = match o2fx::build(&clients, 2) {
             Ok(i) => i,
             Err(e) => kv_engine::ctx::machinery_exit(&format!("oauth world: {e}")),
         };
         let secrets = clients.iter().map(|c| if c.public { None } else { o2fx::basic_secret(&idm, c) }).collect();
-        let mut w = OAuthW { idm, now: 1000, cfg, clients, secrets, uat: None, uat_session: None, codes: vec![], sets: vec![], dead: Default::default(), account_expired: false, parent_logged_out: None, pending: vec![], tainted: false };
+        let mut w = OAuthW { idm, now: 1000, cfg, clients, secrets, uat: None, uat_session: None, codes: vec![], sets: vec![], dead: Default::default(), account_expired: false, revoked_kids: BTreeSet::new(), parent_logged_out: None, pending: vec![], tainted: false };
         let ct = srv::t(w.now);
         match w.idm.login_pw(&o2fx::user_name(1), PW_GOOD, false, ct) {
             Ok(Some(t)) => {
@@ -207,6 +216,11 @@ impl OAuthW {
         if self.account_expired {
             return Some("the account has expired".into());
         }
+        if let Some(k) = Self::kid_of(&s.access) {
+            if self.revoked_kids.contains(&k) {
+                return Some(format!("the key {k} that signed it has been revoked"));
+            }
+        }
         if self.now >= s.issued + OAUTH2_ACCESS_TOKEN_EXPIRY as u64 {
             return Some("the access token's lifetime is over".into());
         }
@@ -218,11 +232,16 @@ impl OAuthW {
         None
     }
 
+    fn kid_of(token: &str) -> Option<String> {
+        use compact_jwt::traits::JwsVerifiable;
+        JwsCompact::from_str(token).ok().and_then(|j| j.kid().map(|k| k.to_string()))
+    }
+
     fn canon_string(&self) -> String {
         let mut p = Vec::new();
         p.push(format!("codes={:?}", self.codes.iter().map(|c| (c.client, c.scopes.len(), self.now - c.issued > 60, c.redeemed)).collect::<Vec<_>>()));
         p.push(format!("sets={:?}", self.sets.iter().map(|s| (s.client, s.scopes.len(), s.grant.len(), s.session, s.rotated, s.refresh.is_some(), (self.now - s.issued).min(2000))).collect::<Vec<_>>()));
-        p.push(format!("dead={:?}", self.dead.keys().collect::<Vec<_>>()));
+        p.push(format!("dead={:?} revoked_keys={}", self.dead.keys().collect::<Vec<_>>(), self.revoked_kids.len()));
         p.push(format!("exp={} logout={:?}", self.account_expired, self.parent_logged_out.map(|t| (self.now - t).min(2000))));
         p.join("\n")
     }
@@ -236,6 +255,15 @@ impl World for OAuthW {
             return Vec::new();
         }
         let mut v = Vec::new();
+        if self.cfg.key_revocation {
+            for (j, s) in self.sets.iter().enumerate() {
+                if let Some(k) = Self::kid_of(&s.access) {
+                    if !self.revoked_kids.contains(&k) && !self.sets[..j].iter().any(|o| Self::kid_of(&o.access).as_ref() == Some(&k)) {
+                        v.push(Op::RevokeSigningKey(j));
+                    }
+                }
+            }
+        }
         if self.codes.len() < self.cfg.max_codes && !self.account_expired && self.parent_logged_out.is_none() {
             for &c in &self.cfg.clients {
                 v.push(Op::Authorise(c, 0));
@@ -428,6 +456,19 @@ impl World for OAuthW {
                 let r = self.idm.write(ct, |w| w.account_destroy_session_token(&DestroySessionTokenEvent { ident: identity_internal(), target: person_uuid(1), token_id: sid }));
                 if r.is_ok() {
                     self.parent_logged_out = Some(self.now);
+                }
+                opstr(&r)
+            }
+            Op::RevokeSigningKey(j) => {
+                let (tok, client) = {
+                    let s = &self.sets[*j];
+                    (s.access.clone(), s.client)
+                };
+                let Some(kid) = Self::kid_of(&tok) else { return "machinery:token without key id".into() };
+                let cu = self.clients[client].uuid;
+                let r = self.idm.write(ct, |w| w.qs_write.internal_modify_uuid(cu, &ModifyList::new_append(Attribute::KeyActionRevoke, Value::HexString(kid.clone()))));
+                if r.is_ok() {
+                    self.revoked_kids.insert(kid);
                 }
                 opstr(&r)
             }
